@@ -13,10 +13,17 @@ use serde::{Deserialize, Serialize};
 /// The possible values are 256 (default) and 512.
 /// The space overhead for 256 is 12.5% while 512 halves this
 /// space overhead (6.25%) at the cost of (slightly) increasing the query time.
-#[derive(Debug, Default, Clone, Serialize, Deserialize, PartialEq)]
+#[derive(Debug, Clone, Serialize, Deserialize, PartialEq)]
 pub struct RSSupportPlain<const B_SIZE: usize = 256> {
     superblocks: Box<[SuperblockPlain]>,
     select_samples: [Box<[u32]>; 4],
+}
+
+impl<const B_SIZE: usize> Default for RSSupportPlain<B_SIZE> {
+    /// The support of an empty quad vector (with its sentinel superblock and samples).
+    fn default() -> Self {
+        Self::new(&QVector::default())
+    }
 }
 
 impl<const B_SIZE: usize> SpaceUsage for RSSupportPlain<B_SIZE> {
